@@ -11,6 +11,7 @@ package impl
 //@ type manager
 //@   nonnil dataTransferNetwork, validatedTypes, transportConfigurers, pubSub, readySub, channels, transport
 //@   nonnil channelMonitor, transferIDGen, spansIndex, transportOptions, channelSubscriptions
+//@   invariant [pauseable] implements(self.transport, datatransfer.PauseableTransport) -- configuration assumption: the configured transport supports pause/resume (the in-repo graphsync transport does)
 
 //@ type receiver
 //@   nonnil manager
@@ -83,11 +84,14 @@ package impl
 //@   ensures [role] (chid.Responder == m.peerID) ? seq(Channels.PauseInitiator) && called(Channels.PauseInitiator, _, chid)
 //@                                              : seq(Channels.PauseResponder) && called(Channels.PauseResponder, _, chid)
 //@ func (*impl.manager).resumeMessage {C11}
-//@   ensures [kind] untouched && result.IsRequest() == (chid.Initiator == m.peerID) && result.IsUpdate() && !result.IsPaused() && result.TransferID() == chid.ID
+//@   pure
+//@   ensures [kind] result.IsRequest() == (chid.Initiator == m.peerID) && result.IsUpdate() && !result.IsPaused() && result.TransferID() == chid.ID
 //@ func (*impl.manager).pauseMessage {C11}
-//@   ensures [kind] untouched && result.IsRequest() == (chid.Initiator == m.peerID) && result.IsUpdate() && result.IsPaused() && result.TransferID() == chid.ID
+//@   pure
+//@   ensures [kind] result.IsRequest() == (chid.Initiator == m.peerID) && result.IsUpdate() && result.IsPaused() && result.TransferID() == chid.ID
 //@ func (*impl.manager).cancelMessage {C09}
-//@   ensures [kind] untouched && result.IsRequest() == (chid.Initiator == m.peerID) && result.IsCancel() && result.TransferID() == chid.ID
+//@   pure
+//@   ensures [kind] result.IsRequest() == (chid.Initiator == m.peerID) && result.IsCancel() && result.TransferID() == chid.ID
 
 // ---------------------------------------------------------------------------------------------
 // receiving_requests.go
@@ -172,3 +176,319 @@ package impl
 //@   ensures [stay-paused] !request.IsPaused() && calls(manager.resumeOther) == 1 && ret(manager.resumeOther, 0) == nil && calls(GetByID) == 1 && ret(GetByID, 1) == nil &&
 //@       ret(GetByID, 0).SelfPaused() ==> err == datatransfer.ErrPause
 //@   ensures [resumed] !request.IsPaused() && err == nil ==> calls(GetByID) == 1 && !ret(GetByID, 0).SelfPaused()
+
+//@ func (*impl.manager).restartRequest {C04,C05,C10,C02}
+//@   requires incoming != nil
+//@   after Registry.Processor [configurer-typed] $0 == m.transportConfigurers && $r1 ==> dyntype_is($r0, datatransfer.TransportConfigurer) && $r0.(datatransfer.TransportConfigurer) != nil
+//@   ensures [initiator-refused] m.peerID == chid.Initiator ==> err != nil && untouched && !result1.Accepted
+//@   ensures [checked-first] m.peerID != chid.Initiator ==> first(manager.validateRestartRequest, $2 == chid.Initiator && $3 == chid && $4 == incoming)
+//@   ensures [invalid-refused] calls(manager.validateRestartRequest) == 1 && ret(manager.validateRestartRequest, 0) != nil ==>
+//@       err != nil && seq(manager.validateRestartRequest) && !result1.Accepted
+//@   ensures [revalidates] calls(Channels.Restart) >= 1 ==> calls(manager.validateRestart) == 1 && before(manager.validateRestart, Channels.Restart) &&
+//@       ret(manager.validateRestart, 1) == nil && ret(manager.validateRestart, 0).Accepted && all(Channels.Restart, $1 == chid)
+//@   ensures [validation-error] calls(manager.validateRestart) == 1 && ret(manager.validateRestart, 1) != nil ==>
+//@       last(manager.validateRestart) && err == ret(manager.validateRestart, 1)
+//@   ensures [rejected] calls(manager.validateRestart) == 1 && ret(manager.validateRestart, 1) == nil && !ret(manager.validateRestart, 0).Accepted ==>
+//@       last(manager.recordRejectedValidationEvents, $1 == chid && $2 == ret(manager.validateRestart, 0)) && never(Channels.Restart) &&
+//@       never(Transport.OpenChannel) && never(TransportOptions.ApplyOptions)
+//@   ensures [result-is-validators] calls(manager.validateRestart) == 1 ==> result1 == ret(manager.validateRestart, 0)
+//@   ensures [never-creates] never(Channels.CreateNew) && never(Channels.Open)
+//@   ensures [stay-paused] calls(manager.validateRestart) == 1 && calls(GetByID) >= 1 ==> result0 == ret(manager.validateRestart, 0).LeaveRequestPaused(ret(GetByID, 0))
+//@   ensures [restart-first-effect] calls(Channels.Restart) == 1 ==> before(Channels.Restart, manager.recordAcceptedValidationEvents) &&
+//@       before(Channels.Restart, TransportOptions.ApplyOptions) && before(Channels.Restart, DataTransferNetwork.Protect)
+
+//@ func (*impl.manager).receiveRestartRequest {C04,C10}
+//@   requires incoming != nil
+//@   ensures [validated] seq(manager.restartRequest) && called(manager.restartRequest, _, chid, incoming)
+//@   ensures [reply] result0 != nil ==> result0.IsRestart() && !result0.IsRequest() && result0.TransferID() == incoming.TransferID() &&
+//@       result0.Accepted() == (ret(manager.restartRequest, 2) == nil && ret(manager.restartRequest, 1).Accepted) &&
+//@       result0.IsPaused() == ret(manager.restartRequest, 0)
+//@   ensures [error] result0 != nil ==> err == (ret(manager.restartRequest, 2) != nil ? ret(manager.restartRequest, 2) :
+//@       (!ret(manager.restartRequest, 1).Accepted ? datatransfer.ErrRejected : (ret(manager.restartRequest, 1).ForcePause ? datatransfer.ErrPause : nil)))
+
+//@ func (*impl.manager).OnRequestReceived {C04,C05,C09}
+//@   requires request != nil
+//@   ensures [restart] request.IsRestart() ==> seq(manager.receiveRestartRequest) && called(manager.receiveRestartRequest, _, chid, request)
+//@   ensures [new] !request.IsRestart() && request.IsNew() ==> seq(manager.receiveNewRequest) && called(manager.receiveNewRequest, _, chid, request)
+//@   ensures [cancel] !request.IsRestart() && !request.IsNew() && request.IsCancel() ==>
+//@       seq(Transport.CleanupChannel, Channels.Cancel) && called(Transport.CleanupChannel, _, chid) && called(Channels.Cancel, _, chid) && result0 == nil
+//@   ensures [voucher] !request.IsRestart() && !request.IsNew() && !request.IsCancel() && request.IsVoucher() ==>
+//@       seq(manager.processUpdateVoucher) && called(manager.processUpdateVoucher, _, chid, request)
+//@   ensures [update] !request.IsRestart() && !request.IsNew() && !request.IsCancel() && !request.IsVoucher() ==>
+//@       seq(manager.receiveUpdateRequest) && called(manager.receiveUpdateRequest, _, chid, request)
+
+// ---------------------------------------------------------------------------------------------
+// restart.go
+
+//@ extern func github.com/ipld/go-ipld-prime.DeepEqual
+//@   reads
+
+//@ func (*impl.manager).validateRestartRequest {C05,C02,C10}
+//@   requires req != nil
+//@   ensures [read-only] untouched
+//@   ensures [exists] ret(GetByID, 1) != nil ==> result != nil
+//@   ensures [not-terminated] result == nil ==> !channels.IsChannelTerminated(ret(GetByID, 0).Status())
+//@   ensures [initiator] result == nil ==> ret(GetByID, 0).ChannelID().Initiator == otherPeer
+//@   ensures [base-cid] result == nil ==> req.BaseCid() == ret(GetByID, 0).BaseCID()
+//@   ensures [voucher-type] result == nil ==> req.VoucherType() == ret(GetByID, 0).Voucher().Type
+//@   ensures [voucher] result == nil ==> calls(DeepEqual) == 1 && req.Voucher().1 == nil && ret(DeepEqual, 0) && called(DeepEqual, req.Voucher().0, ret(GetByID, 0).Voucher().Voucher)
+//@   ensures [same-channel] called(GetByID, _, _, chid)
+
+//@ func (*impl.manager).channelDataTransferType {C05,C10}
+//@   pure
+//@   requires channel != nil
+//@   ensures [by-role] result == (channel.IsPull() ?
+//@       (channel.ChannelID().Initiator == m.peerID ? ManagerPeerCreatePull : ManagerPeerReceivePull) :
+//@       (channel.ChannelID().Initiator == m.peerID ? ManagerPeerCreatePush : ManagerPeerReceivePush))
+
+//@ func (*impl.manager).openPushRestartChannel {C10,C05}
+//@   requires channel != nil
+//@   after Registry.Processor [configurer-typed] $0 == m.transportConfigurers && $r1 ==> dyntype_is($r0, datatransfer.TransportConfigurer) && $r0.(datatransfer.TransportConfigurer) != nil
+//@   ensures [never-creates] never(Channels.CreateNew) && never(Channels.Open) && never(Transport.OpenChannel)
+//@   ensures [same-transfer] all(DataTransferNetwork.SendMessage, $2 == channel.OtherPeer() && $3.IsRequest() && $3.IsRestart() &&
+//@       $3.TransferID() == channel.ChannelID().ID && !$3.(datatransfer.Request).IsPull() && $3.(datatransfer.Request).BaseCid() == channel.BaseCID() &&
+//@       $3.(datatransfer.Request).Selector().0 == channel.Selector() && $3.(datatransfer.Request).VoucherType() == channel.Voucher().Type &&
+//@       $3.(datatransfer.Request).Voucher().0 == channel.Voucher().Voucher)
+//@   ensures [sends-once] err == nil ==> calls(DataTransferNetwork.SendMessage) == 1 && last(DataTransferNetwork.SendMessage)
+//@   ensures [monitored] calls(DataTransferNetwork.SendMessage) == 1 ==> before(Monitor.AddPushChannel, DataTransferNetwork.SendMessage) && called(Monitor.AddPushChannel, _, channel.ChannelID())
+
+//@ func (*impl.manager).openPullRestartChannel {C10,C05}
+//@   requires channel != nil
+//@   after Registry.Processor [configurer-typed] $0 == m.transportConfigurers && $r1 ==> dyntype_is($r0, datatransfer.TransportConfigurer) && $r0.(datatransfer.TransportConfigurer) != nil
+//@   ensures [never-creates] never(Channels.CreateNew) && never(Channels.Open) && never(DataTransferNetwork.SendMessage)
+//@   ensures [same-transfer] all(Transport.OpenChannel, $2 == channel.OtherPeer() && $3 == channel.ChannelID() && $5 == channel.Selector() && $6 == channel &&
+//@       $7.IsRequest() && $7.IsRestart() && $7.TransferID() == channel.ChannelID().ID && $7.(datatransfer.Request).IsPull() &&
+//@       $7.(datatransfer.Request).BaseCid() == channel.BaseCID() && $7.(datatransfer.Request).Selector().0 == channel.Selector() &&
+//@       $7.(datatransfer.Request).VoucherType() == channel.Voucher().Type && $7.(datatransfer.Request).Voucher().0 == channel.Voucher().Voucher)
+//@   ensures [opens-once] err == nil ==> calls(Transport.OpenChannel) == 1 && last(Transport.OpenChannel)
+//@   ensures [monitored] calls(Transport.OpenChannel) == 1 ==> before(Monitor.AddPullChannel, Transport.OpenChannel) && called(Monitor.AddPullChannel, _, channel.ChannelID())
+
+//@ func (*impl.manager).restartManagerPeerReceivePush {C10,C04}
+//@   requires channel != nil
+//@   ensures [revalidates-first] first(manager.validateRestart, $1 == channel)
+//@   ensures [rejected] ret(manager.validateRestart, 1) != nil || !ret(manager.validateRestart, 0).Accepted ==> seq(manager.validateRestart) && result != nil
+//@   ensures [asks-initiator] all(DataTransferNetwork.SendMessage, $2 == channel.OtherPeer() && $3.IsRequest() &&
+//@       $3.(datatransfer.Request).IsRestartExistingChannelRequest() && $3.(datatransfer.Request).RestartChannelId().0 == channel.ChannelID())
+//@   ensures [only] only(manager.validateRestart, DataTransferNetwork.SendMessage) && calls(DataTransferNetwork.SendMessage) <= 1
+//@ func (*impl.manager).restartManagerPeerReceivePull {C10,C04}
+//@   requires channel != nil
+//@   ensures [revalidates-first] first(manager.validateRestart, $1 == channel)
+//@   ensures [rejected] ret(manager.validateRestart, 1) != nil || !ret(manager.validateRestart, 0).Accepted ==> seq(manager.validateRestart) && result != nil
+//@   ensures [asks-initiator] all(DataTransferNetwork.SendMessage, $2 == channel.OtherPeer() && $3.IsRequest() &&
+//@       $3.(datatransfer.Request).IsRestartExistingChannelRequest() && $3.(datatransfer.Request).RestartChannelId().0 == channel.ChannelID())
+//@   ensures [only] only(manager.validateRestart, DataTransferNetwork.SendMessage) && calls(DataTransferNetwork.SendMessage) <= 1
+
+// ---------------------------------------------------------------------------------------------
+// impl.go
+
+//@ func (*impl.manager).SendVoucher {C05,C19}
+//@   ensures [unknown-channel] ret(GetByID, 1) != nil ==> untouched && result != nil
+//@   ensures [role] channelID.Initiator != m.peerID ==> result != nil && untouched
+//@   ensures [message] all(DataTransferNetwork.SendMessage, $2 == ret(GetByID, 0).OtherPeer() && $3.IsRequest() && $3.(datatransfer.Request).IsVoucher() &&
+//@       !$3.IsNew() && $3.TransferID() == channelID.ID && $3.(datatransfer.Request).VoucherType() == voucher.Type && $3.(datatransfer.Request).Voucher().0 == voucher.Voucher)
+//@   ensures [after-send] before(DataTransferNetwork.SendMessage, Channels.NewVoucher) && all(Channels.NewVoucher, $1 == channelID && $2 == voucher) && calls(Channels.NewVoucher) <= 1
+//@   ensures [send-failure] calls(DataTransferNetwork.SendMessage) == 1 && ret(DataTransferNetwork.SendMessage, 0) != nil ==>
+//@       never(Channels.NewVoucher) && result != nil && last(manager.OnRequestDisconnected, $1 == channelID)
+//@   ensures [recorded] result == nil ==> calls(Channels.NewVoucher) == 1 && calls(DataTransferNetwork.SendMessage) == 1
+
+//@ func (*impl.manager).SendVoucherResult {C05,C19}
+//@   ensures [unknown-channel] ret(GetByID, 1) != nil ==> untouched && result != nil
+//@   ensures [role] channelID.Initiator == m.peerID ==> result != nil && untouched
+//@   ensures [message] all(DataTransferNetwork.SendMessage, $2 == ret(GetByID, 0).OtherPeer() && !$3.IsRequest() && $3.TransferID() == channelID.ID &&
+//@       $3.(datatransfer.Response).IsComplete() == ret(GetByID, 0).Status().InFinalization() &&
+//@       $3.(datatransfer.Response).Accepted() == ret(GetByID, 0).Status().IsAccepted() && $3.IsPaused() == ret(GetByID, 0).ResponderPaused() &&
+//@       $3.(datatransfer.Response).VoucherResultType() == voucherResult.Type && $3.(datatransfer.Response).VoucherResult().0 == voucherResult.Voucher)
+//@   ensures [after-send] before(DataTransferNetwork.SendMessage, Channels.NewVoucherResult) && all(Channels.NewVoucherResult, $1 == channelID && $2 == voucherResult) &&
+//@       calls(Channels.NewVoucherResult) <= 1
+//@   ensures [send-failure] calls(DataTransferNetwork.SendMessage) == 1 && ret(DataTransferNetwork.SendMessage, 0) != nil ==>
+//@       never(Channels.NewVoucherResult) && result != nil && last(manager.OnRequestDisconnected, $1 == channelID)
+//@   ensures [recorded] result == nil ==> calls(Channels.NewVoucherResult) == 1 && calls(DataTransferNetwork.SendMessage) == 1
+
+//@ func (*impl.manager).updateValidationStatus {C05,C04,C08}
+//@   ensures [role] chid.Initiator == m.peerID ==> result0 != nil && untouched
+//@   ensures [flow] chid.Initiator != m.peerID ==> seq(manager.processValidationUpdate, manager.handleTransportUpdate) &&
+//@       called(manager.processValidationUpdate, _, _, chid, result) &&
+//@       all(manager.handleTransportUpdate, $2 == ret(manager.processValidationUpdate, 0) && $3 == ret(manager.processValidationUpdate, 1) && $4 == result &&
+//@           $5 == ret(manager.processValidationUpdate, 2))
+
+//@ func (*impl.manager).processValidationUpdate {C04,C08}
+//@   ensures [unknown-channel] ret(GetByID, 1) != nil ==> untouched && err != nil && result0 == nil && result1 == nil
+//@   ensures [records] ret(GetByID, 1) == nil ==> (result.Accepted ? first(manager.recordAcceptedValidationEvents, $1 == ret(GetByID, 0) && $2 == result)
+//@                                                            : first(manager.recordRejectedValidationEvents, $1 == chid && $2 == result))
+//@   ensures [record-failure] err != nil ==> result0 == nil && result1 == nil
+//@   ensures [reply] err == nil ==> result0 == ret(GetByID, 0) && result1 != nil && !result1.IsRequest() && result1.TransferID() == ret(GetByID, 0).TransferID() &&
+//@       result1.Accepted() == result.Accepted && result1.IsPaused() == result.LeaveRequestPaused(ret(GetByID, 0)) &&
+//@       result1.IsComplete() == (ret(GetByID, 0).Status() == datatransfer.Finalizing)
+//@   ensures [only] only(GetByID, manager.recordAcceptedValidationEvents, manager.recordRejectedValidationEvents)
+
+//@ func (*impl.manager).handleTransportUpdate {C04,C08,C11}
+//@   requires [snapshot] chst != nil
+//@   ensures [resume] resultErr == nil && result.Accepted && !result.LeaveRequestPaused(chst) && chst.ResponderPaused() && !chst.Status().InFinalization() ==>
+//@       seq(PauseableTransport.ResumeChannel) && all(PauseableTransport.ResumeChannel, $2 == response && $3 == chst.ChannelID())
+//@   ensures [resume-only-then] calls(PauseableTransport.ResumeChannel) >= 1 ==>
+//@       resultErr == nil && result.Accepted && !result.LeaveRequestPaused(chst) && chst.ResponderPaused() && !chst.Status().InFinalization()
+//@   ensures [reply] calls(PauseableTransport.ResumeChannel) == 0 && response != nil ==> first(DataTransferNetwork.SendMessage, $2 == chst.ChannelID().Initiator && $3 == response)
+//@   ensures [close] (resultErr != nil || !result.Accepted) && (response == nil || calls(DataTransferNetwork.SendMessage) == 1 && ret(DataTransferNetwork.SendMessage, 0) == nil) ==>
+//@       last(Transport.CloseChannel, $2 == chst.ChannelID()) && never(PauseableTransport.ResumeChannel) && never(PauseableTransport.PauseChannel) && err == resultErr
+//@   ensures [pause] calls(PauseableTransport.PauseChannel) >= 1 ==> resultErr == nil && result.Accepted && result.LeaveRequestPaused(chst) &&
+//@       !chst.ResponderPaused() && !chst.Status().InFinalization() && last(PauseableTransport.PauseChannel, $2 == chst.ChannelID())
+//@   ensures [pause-total] resultErr == nil && result.Accepted && result.LeaveRequestPaused(chst) && !chst.ResponderPaused() && !chst.Status().InFinalization() &&
+//@       (response == nil || calls(DataTransferNetwork.SendMessage) == 1 && ret(DataTransferNetwork.SendMessage, 0) == nil) ==> calls(PauseableTransport.PauseChannel) == 1
+
+//@ func (*impl.manager).CloseDataTransferChannel {C09}
+//@   ensures [unknown-channel] ret(GetByID, 1) != nil ==> untouched && result != nil
+//@   ensures [closes] ret(GetByID, 1) == nil ==> seq(Transport.CloseChannel, CloseDataTransferChannel$1, Channels.Cancel) &&
+//@       called(Transport.CloseChannel, _, _, chid) && called(Channels.Cancel, _, chid)
+//@   ensures [result] ret(GetByID, 1) == nil ==> calls(Channels.Cancel) == 1 && (result == nil) == (ret(Channels.Cancel, 0) == nil)
+
+//@ func (*impl.manager).CloseDataTransferChannel$1 {C09}
+//@   requires *chst != nil && *m != nil
+//@   modifies err
+//@   ensures [cancel-message] first(DataTransferNetwork.SendMessage, $2 == (*chst).OtherPeer() && $3.IsCancel() && $3.TransferID() == (*chid).ID &&
+//@       $3.IsRequest() == ((*chid).Initiator == (**m).peerID)) && calls(DataTransferNetwork.SendMessage) == 1
+//@   ensures [send-failure] ret(DataTransferNetwork.SendMessage, 0) != nil ==> called(manager.OnRequestDisconnected, _, *chid)
+//@   ensures [only] only(DataTransferNetwork.SendMessage, manager.OnRequestDisconnected)
+
+//@ func (*impl.manager).CloseDataTransferChannelWithError {C09,C14}
+//@   ensures [unknown-channel] ret(GetByID, 1) != nil ==> untouched && result != nil
+//@   ensures [closes] ret(GetByID, 1) == nil ==> seq(Transport.CloseChannel, DataTransferNetwork.SendMessage, Channels.Error) &&
+//@       called(Transport.CloseChannel, _, _, chid) && all(Channels.Error, $1 == chid && $2 == cherr) &&
+//@       all(DataTransferNetwork.SendMessage, $2 == ret(GetByID, 0).OtherPeer() && $3.IsCancel() && $3.TransferID() == chid.ID &&
+//@           $3.IsRequest() == (chid.Initiator == m.peerID))
+//@   ensures [result] ret(GetByID, 1) == nil ==> calls(Channels.Error) == 1 && (result == nil) == (ret(Channels.Error, 0) == nil)
+
+//@ func (*impl.manager).PauseDataTransferChannel {C11}
+//@   ensures [order] first(PauseableTransport.PauseChannel, $2 == chid) &&
+//@       all(DataTransferNetwork.SendMessage, $2 == chid.OtherParty(m.peerID) && $3.IsUpdate() && $3.IsPaused() && $3.TransferID() == chid.ID &&
+//@           $3.IsRequest() == (chid.Initiator == m.peerID)) && calls(DataTransferNetwork.SendMessage) == 1
+//@   ensures [recorded] calls(DataTransferNetwork.SendMessage) == 1 && ret(DataTransferNetwork.SendMessage, 0) == nil ==> last(manager.pause, $1 == chid) && calls(manager.pause) == 1
+//@   ensures [send-failure] calls(DataTransferNetwork.SendMessage) == 1 && ret(DataTransferNetwork.SendMessage, 0) != nil ==>
+//@       never(manager.pause) && last(manager.OnRequestDisconnected, $1 == chid) && result != nil
+
+//@ func (*impl.manager).ResumeDataTransferChannel {C11}
+//@   ensures [order] seq(PauseableTransport.ResumeChannel, manager.resume) &&
+//@       all(PauseableTransport.ResumeChannel, $3 == chid && $2.IsUpdate() && !$2.IsPaused() && $2.TransferID() == chid.ID && $2.IsRequest() == (chid.Initiator == m.peerID)) &&
+//@       called(manager.resume, _, chid)
+
+//@ func (*impl.manager).RestartDataTransferChannel {C02,C06,C10,C09}
+//@   ensures [unknown-channel] ret(GetByID, 1) != nil ==> untouched && result != nil
+//@   ensures [terminated] ret(GetByID, 1) == nil && channels.IsChannelTerminated(ret(GetByID, 0).Status()) ==> result == nil && untouched
+//@   ensures [cleaning-up] ret(GetByID, 1) == nil && !channels.IsChannelTerminated(ret(GetByID, 0).Status()) && channels.IsChannelCleaningUp(ret(GetByID, 0).Status()) ==>
+//@       seq(Channels.CompleteCleanupOnRestart) && called(Channels.CompleteCleanupOnRestart, _, ret(GetByID, 0).ChannelID())
+//@   ensures [by-role] ret(GetByID, 1) == nil && !channels.IsChannelTerminated(ret(GetByID, 0).Status()) && !channels.IsChannelCleaningUp(ret(GetByID, 0).Status()) ==>
+//@       (m.channelDataTransferType(ret(GetByID, 0)) == ManagerPeerReceivePush ==> seq(manager.restartManagerPeerReceivePush) && all(manager.restartManagerPeerReceivePush, $2 == ret(GetByID, 0))) &&
+//@       (m.channelDataTransferType(ret(GetByID, 0)) == ManagerPeerReceivePull ==> seq(manager.restartManagerPeerReceivePull) && all(manager.restartManagerPeerReceivePull, $2 == ret(GetByID, 0))) &&
+//@       (m.channelDataTransferType(ret(GetByID, 0)) == ManagerPeerCreatePull ==> seq(manager.openPullRestartChannel) && all(manager.openPullRestartChannel, $2 == ret(GetByID, 0))) &&
+//@       (m.channelDataTransferType(ret(GetByID, 0)) == ManagerPeerCreatePush ==> seq(manager.openPushRestartChannel) && all(manager.openPushRestartChannel, $2 == ret(GetByID, 0)))
+//@   ensures [never-creates] never(Channels.CreateNew) && never(Channels.Open)
+
+// ---------------------------------------------------------------------------------------------
+// environment.go, timecounter.go
+
+//@ func (*impl.channelEnvironment).CleanupChannel {C09}
+//@   ensures [chain] seq(Transport.CleanupChannel, SpansIndex.EndChannelSpan, TransportOptions.ClearOptions) &&
+//@       called(Transport.CleanupChannel, _, chid) && called(SpansIndex.EndChannelSpan, _, chid) && called(TransportOptions.ClearOptions, _, chid)
+//@ func (*impl.channelEnvironment).Unprotect {C09}
+//@   ensures [forward] seq(DataTransferNetwork.Unprotect) && called(DataTransferNetwork.Unprotect, _, id, tag)
+//@ func (*impl.channelEnvironment).ID {C09}
+//@   ensures [forward] seq(DataTransferNetwork.ID) && result == ret(DataTransferNetwork.ID, 0)
+
+//@ func (*impl.timeCounter).next {C18}
+//@   modifies tc.counter
+//@   ensures [increment] result == (old(tc.counter) + 1) % 18446744073709551616 && tc.counter == result
+
+// ---------------------------------------------------------------------------------------------
+// receiver.go
+
+//@ func (*impl.receiver).receiveRequest {C04,C05,C10,C11}
+//@   requires incoming != nil
+//@   ensures [derived-id] first(manager.OnRequestReceived, $1 == datatransfer.ChannelID{Initiator: initiator, Responder: r.manager.peerID, ID: incoming.TransferID()} && $2 == incoming) &&
+//@       calls(manager.OnRequestReceived) == 1
+//@   ensures [same-channel] all(GetByID, $2 == arg(manager.OnRequestReceived, 1)) && all(Transport.OpenChannel, $3 == arg(manager.OnRequestReceived, 1) && $2 == initiator) &&
+//@       all(Transport.CloseChannel, $2 == arg(manager.OnRequestReceived, 1)) && all(PauseableTransport.PauseChannel, $2 == arg(manager.OnRequestReceived, 1)) &&
+//@       all(PauseableTransport.ResumeChannel, $3 == arg(manager.OnRequestReceived, 1)) && all(DataTransferNetwork.SendMessage, $2 == initiator)
+//@   ensures [open-only-accepted] all(Transport.OpenChannel, $7 == ret(manager.OnRequestReceived, 0) && ret(manager.OnRequestReceived, 0).Accepted() &&
+//@       (ret(manager.OnRequestReceived, 0).IsNew() || ret(manager.OnRequestReceived, 0).IsRestart()) && !incoming.IsPull())
+//@   ensures [restart-keeps-channel] all(Transport.OpenChannel, ret(manager.OnRequestReceived, 0).IsRestart() ==> calls(GetByID) >= 1 && $6 != nil)
+//@   ensures [reply-sent] all(DataTransferNetwork.SendMessage, $3 == ret(manager.OnRequestReceived, 0))
+//@   ensures [close-on-error] ret(manager.OnRequestReceived, 1) != nil && ret(manager.OnRequestReceived, 1) != datatransfer.ErrPause &&
+//@       ret(manager.OnRequestReceived, 1) != datatransfer.ErrResume &&
+//@       (calls(Transport.OpenChannel) == 1 ==> ret(Transport.OpenChannel, 0) == nil) &&
+//@       (calls(DataTransferNetwork.SendMessage) == 1 ==> ret(DataTransferNetwork.SendMessage, 0) == nil) &&
+//@       (calls(GetByID) >= 1 ==> ret(GetByID, 1) == nil) ==>
+//@       last(Transport.CloseChannel) && result == ret(manager.OnRequestReceived, 1)
+//@   ensures [pause] ret(manager.OnRequestReceived, 1) == datatransfer.ErrPause &&
+//@       (calls(Transport.OpenChannel) == 1 ==> ret(Transport.OpenChannel, 0) == nil) &&
+//@       (calls(DataTransferNetwork.SendMessage) == 1 ==> ret(DataTransferNetwork.SendMessage, 0) == nil) &&
+//@       (calls(GetByID) >= 1 ==> ret(GetByID, 1) == nil) ==> last(PauseableTransport.PauseChannel)
+//@   ensures [no-close-when-ok] ret(manager.OnRequestReceived, 1) == nil ==> never(Transport.CloseChannel) && never(PauseableTransport.PauseChannel)
+
+//@ func (*impl.receiver).receiveResponse {C05,C11,C03}
+//@   requires incoming != nil
+//@   ensures [derived-id] first(manager.OnResponseReceived, $1 == datatransfer.ChannelID{Initiator: r.manager.peerID, Responder: sender, ID: incoming.TransferID()} && $2 == incoming) &&
+//@       calls(manager.OnResponseReceived) == 1
+//@   ensures [same-channel] all(Transport.CloseChannel, $2 == arg(manager.OnResponseReceived, 1)) && all(PauseableTransport.PauseChannel, $2 == arg(manager.OnResponseReceived, 1))
+//@   ensures [pause] ret(manager.OnResponseReceived, 0) == datatransfer.ErrPause ==> seq(manager.OnResponseReceived, PauseableTransport.PauseChannel)
+//@   ensures [close-on-error] ret(manager.OnResponseReceived, 0) != nil && ret(manager.OnResponseReceived, 0) != datatransfer.ErrPause ==>
+//@       seq(manager.OnResponseReceived, Transport.CloseChannel) && result == ret(manager.OnResponseReceived, 0)
+//@   ensures [ok] ret(manager.OnResponseReceived, 0) == nil ==> seq(manager.OnResponseReceived) && result == nil
+
+//@ func (*impl.receiver).ReceiveRestartExistingChannelRequest {C05,C02,C10}
+//@   requires incoming != nil
+//@   ensures [not-a-restart-request] incoming.RestartChannelId().1 != nil ==> untouched
+//@   ensures [guarded] calls(manager.openPushRestartChannel) + calls(manager.openPullRestartChannel) >= 1 ==>
+//@       calls(GetByID) == 1 && ret(GetByID, 1) == nil && ret(GetByID, 0) != nil && called(GetByID, _, _, incoming.RestartChannelId().0) &&
+//@       ret(GetByID, 0).ChannelID().Initiator == r.manager.peerID && ret(GetByID, 0).OtherPeer() == sender &&
+//@       !channels.IsChannelTerminated(ret(GetByID, 0).Status())
+//@   ensures [at-most-one] calls(manager.openPushRestartChannel) + calls(manager.openPullRestartChannel) <= 1
+//@   ensures [stored-channel] all(manager.openPushRestartChannel, $2 == ret(GetByID, 0)) && all(manager.openPullRestartChannel, $2 == ret(GetByID, 0))
+//@   ensures [by-direction] all(manager.openPushRestartChannel, !ret(GetByID, 0).IsPull()) && all(manager.openPullRestartChannel, ret(GetByID, 0).IsPull())
+//@   ensures [only] only(GetByID, manager.openPushRestartChannel, manager.openPullRestartChannel)
+
+// ---------------------------------------------------------------------------------------------
+// events.go (data flow) and opening
+
+//@ func (*impl.manager).OnDataReceived {C07,C08}
+//@   requires [cid-links] link != nil && dyntype_is(link, cidlink.Link) -- configuration assumption: transports report cidlink.Link
+//@   ensures [forward] first(Channels.DataReceived, $1 == chid && $3 == size && $4 == index && $5 == unique) && calls(Channels.DataReceived) == 1
+//@   ensures [notify] ret(Channels.DataReceived, 0) == datatransfer.ErrPause ==> seq(Channels.DataReceived, DataTransferNetwork.SendMessage) &&
+//@       all(DataTransferNetwork.SendMessage, $2 == chid.Initiator && !$3.IsRequest() && $3.IsUpdate() && $3.IsPaused() && $3.TransferID() == chid.ID)
+//@   ensures [no-notice-otherwise] ret(Channels.DataReceived, 0) != datatransfer.ErrPause ==> seq(Channels.DataReceived) && result == ret(Channels.DataReceived, 0)
+//@   ensures [pause-result] ret(Channels.DataReceived, 0) == datatransfer.ErrPause && calls(DataTransferNetwork.SendMessage) == 1 && ret(DataTransferNetwork.SendMessage, 0) == nil ==> result == datatransfer.ErrPause
+
+//@ func (*impl.manager).OnDataQueued {C07,C08}
+//@   requires [cid-links] link != nil && dyntype_is(link, cidlink.Link) -- configuration assumption: transports report cidlink.Link
+//@   ensures [forward] seq(Channels.DataQueued) && all(Channels.DataQueued, $1 == chid && $3 == size && $4 == index && $5 == unique)
+//@   ensures [result] err == ret(Channels.DataQueued, 0)
+//@   ensures [pause-message] err == datatransfer.ErrPause ==> result0 != nil && !result0.IsRequest() && result0.IsUpdate() && result0.IsPaused() && result0.TransferID() == chid.ID
+//@   ensures [no-message-otherwise] err != datatransfer.ErrPause ==> result0 == nil
+
+//@ func (*impl.manager).OnDataSent {C07}
+//@   requires [cid-links] link != nil && dyntype_is(link, cidlink.Link)
+//@   ensures [forward] seq(Channels.DataSent) && all(Channels.DataSent, $1 == chid && $3 == size && $4 == index && $5 == unique) && result == ret(Channels.DataSent, 0)
+
+//@ func (*impl.manager).OnChannelOpened {C16,C02}
+//@   ensures [tracked-only] calls(Channels.ChannelOpened) >= 1 ==> ret(HasChannel, 1) == nil && ret(HasChannel, 0) && all(Channels.ChannelOpened, $1 == chid)
+//@   ensures [unknown] ret(HasChannel, 1) == nil && !ret(HasChannel, 0) ==> result == datatransfer.ErrChannelNotFound && untouched
+
+//@ func (*impl.manager).newRequest {C18,C12}
+//@   ensures [fresh-id] seq(timeCounter.next) && (err == nil ==> result0 != nil && result0.TransferID() == ret(timeCounter.next, 0) && result0.IsNew() && result0.IsRequest() &&
+//@       result0.IsPull() == isPull && result0.BaseCid() == baseCid)
+
+//@ func (*impl.manager).OpenPushDataChannel {C18,C17,C10}
+//@   after Registry.Processor [configurer-typed] $0 == m.transportConfigurers && $r1 ==> dyntype_is($r0, datatransfer.TransportConfigurer) && $r0.(datatransfer.TransportConfigurer) != nil
+//@   ensures [one-id] calls(manager.newRequest) == 1 && first(manager.newRequest) && all(manager.newRequest, !$3)
+//@   ensures [same-id] all(Channels.CreateNew, $1 == m.peerID && $2 == ret(manager.newRequest, 0).TransferID() && $6 == m.peerID && $7 == m.peerID && $8 == requestTo && $3 == baseCid)
+//@   ensures [refused] calls(Channels.CreateNew) == 1 && ret(Channels.CreateNew, 1) != nil ==> last(Channels.CreateNew) && err != nil
+//@   ensures [subscribe-before-open] notafter(ChannelSubscriptions.Subscribe, Channels.Open) && all(ChannelSubscriptions.Subscribe, $1 == ret(Channels.CreateNew, 0))
+//@   ensures [message] all(DataTransferNetwork.SendMessage, $2 == requestTo && $3 == ret(manager.newRequest, 0)) && never(Transport.OpenChannel)
+//@   ensures [send-failure] calls(DataTransferNetwork.SendMessage) == 1 && ret(DataTransferNetwork.SendMessage, 0) != nil ==> err != nil && called(Channels.Error, _, ret(Channels.CreateNew, 0), _)
+
+//@ func (*impl.manager).OpenPullDataChannel {C18,C17,C10}
+//@   after Registry.Processor [configurer-typed] $0 == m.transportConfigurers && $r1 ==> dyntype_is($r0, datatransfer.TransportConfigurer) && $r0.(datatransfer.TransportConfigurer) != nil
+//@   ensures [one-id] calls(manager.newRequest) == 1 && first(manager.newRequest) && all(manager.newRequest, $3)
+//@   ensures [same-id] all(Channels.CreateNew, $1 == m.peerID && $2 == ret(manager.newRequest, 0).TransferID() && $6 == m.peerID && $7 == requestTo && $8 == m.peerID && $3 == baseCid)
+//@   ensures [refused] calls(Channels.CreateNew) == 1 && ret(Channels.CreateNew, 1) != nil ==> last(Channels.CreateNew) && err != nil
+//@   ensures [subscribe-before-open] notafter(ChannelSubscriptions.Subscribe, Channels.Open) && all(ChannelSubscriptions.Subscribe, $1 == ret(Channels.CreateNew, 0))
+//@   ensures [request] all(Transport.OpenChannel, $2 == requestTo && $3 == ret(Channels.CreateNew, 0) && $6 == nil && $7 == ret(manager.newRequest, 0)) && never(DataTransferNetwork.SendMessage)
+//@   ensures [open-failure] calls(Transport.OpenChannel) == 1 && ret(Transport.OpenChannel, 0) != nil ==> err != nil && called(Channels.Error, _, ret(Channels.CreateNew, 0), _)
